@@ -94,6 +94,8 @@ func runC01(c *Ctx, r *Rec) {
 
 	checkReceiverWrites(c, r, "D4-receiver-writes-persist", lst)
 	checkResetCompleteness(c, r, "D4-reset-complete", lst)
+	checkTypeLockPairing(c, r, "D4-lock-released", lst)
+	checkTypeLockPairing(c, r, "D4-lock-released", arr)
 	checkReceiverWrites(c, r, "D4-receiver-writes-persist", arr)
 	// ---- D2 normalisers
 	type layer struct {
